@@ -55,6 +55,7 @@ public:
     AbstractServer *server;
     Hostname *hostname;
     Prober *prober;
+    QByteArray probedName;
 
     Service service;
     bool initialized;
